@@ -34,7 +34,7 @@ def unit_for(cls):
         except Exception as ex:
             return dict(reproduced=False, error=repr(ex))
         return native(o)
-    return Unit('K3/%s' % common.class_key(cls), e2.roundtrip_unit(cls), replay=replay, clause='K3',
+    return Unit('K3/%s' % common.class_key(cls), e2.clause_unit(cls, ('K3', 'compose re')), replay=replay, clause='K3',
                 functions=['%s.compose' % cls.__name__, '%s._parse' % cls.__name__])
 
 
